@@ -16,7 +16,7 @@ use std::str::FromStr;
 #[derive(Clone, Debug, PartialEq, Eq)]
 pub struct Violation {
     pub prop: &'static str,
-    /// property/oracle/direction/discriminator — what known_findings.jsonl matches on
+    /// property/oracle/direction/discriminator — what known_findings.txt matches on
     pub sig: String,
     pub detail: String,
 }
